@@ -119,3 +119,180 @@ def account(c, traces, meta):
             c.nontrivial.add((_cfg_id(m["cfg"]), tuple(m["sched"])))
     for t, m in list(zip(traces, meta))[:: max(1, len(traces) // 3)][:3]:
         c.sample({"cfg": _short(m["cfg"]), "schedule": m["sched"], "events": t[:40]})
+
+
+# ---------------------------------------------------------------------------------------------
+# design model <-> code
+
+MODE_TLA = {"list": "list", "generator": "gen", "generator_unordered": "unordered"}
+
+
+def model_constants(cfg, **over):
+    """ParallelDesign constants for an L1 configuration (same n for all calls, rc=True, no inline/timeout)."""
+    from harness import pl1
+    calls = cfg["calls"]; n = calls[0]["n"]
+    assert all(c["n"] == n for c in calls) and cfg["rc"] and not cfg["inline"] and cfg["timeout"] is None and not cfg["managed"]
+    fc = {k + 1 for k, c in enumerate(calls) if c.get("fail") or c.get("iterfail") is not None}
+    fails = set(); itf = n + 1
+    for c in calls:
+        if c.get("fail"): fails = set(c["fail"])
+        if c.get("iterfail") is not None: itf = c["iterfail"]
+    from checks import pmodel
+    k = dict(pmodel.BASE)
+    k.update(N=n, NJ=cfg["nj"], PRE=pl1.pre_tasks(cfg["pre"], cfg["nj"]),
+             BSizes=set(cfg["bsizes"]) if cfg["bs"] == "auto" else {cfg["bs"]}, Fail=fails, IterFailAt=itf,
+             FailCalls=fc or {99}, Mode=MODE_TLA[cfg["mode"]], Calls=len(calls))
+    k.update(over)
+    return k
+
+
+def _dtrace_one(args):
+    cfg, limit, seed = args
+    sys.path.insert(0, VERIF)
+    from harness import pl1
+    out = []
+    runs, trunc = pl1.dfs(cfg, limit=limit, on_run=lambda r, s: out.append((r.dtrace, list(s))))
+    if trunc:
+        rng = random.Random(seed)
+        pl1.random_runs(cfg, limit // 2, rng, on_run=lambda r, s: out.append((r.dtrace, list(s))))
+    return out
+
+
+def design_conformance(c, scenarios, seed=0):
+    """Code -> design spec: L1 executions recorded as design traces must be behaviours of ParallelDesign.
+    A rejection is DRIFT (reported, counted), not a violation."""
+    jobs = [(cfg, limit, seed + k) for k, (cfg, limit) in enumerate(scenarios)]
+    with ProcessPoolExecutor(max_workers=min(8, len(jobs))) as ex:
+        results = list(ex.map(_dtrace_one, jobs))
+    total = 0; drift = 0
+    for k, ((cfg, limit), out) in enumerate(zip(scenarios, results)):
+        path = os.path.join(VERIF, "out", "cfg", "PDT_%s_%d.cfg" % (c.pid, k))
+        tlc.write_cfg(path, constants=model_constants(cfg), spec="TSpec", constraint="Progress", postcondition="Accepted")
+        traces = [o[0] for o in out]
+        r, rej = tlc.validate_traces("ParallelDesignTrace", path, traces)
+        c.add_tlc("design-conformance[%d]" % k, r)
+        total += len(traces); drift += len(rej)
+        for ti, (line, why) in list(rej.items())[:3]:
+            print("DRIFT property=%s design model rejects execution cfg=%s schedule=%s at event %d %s" %
+                  (c.pid, _short(cfg), out[ti][1], line, traces[ti][line - 1] if 0 < line <= len(traces[ti]) else ""))
+    c.extra["design_conformance_traces"] = total
+    c.extra["design_conformance_rejected"] = drift
+    c.drift += drift
+    c.traces_validated += total - drift
+    return drift
+
+
+_STATE = re.compile(r"^\\\* <(\w+)(?:\((\d+)\))? line .*?>\nSTATE_\d+ ==\s*\n(.*?)(?=^\\\* <|\Z)", re.S | re.M)
+
+
+def parse_sim_trace(text):
+    """-> list of (action name, parameter or None, state text)"""
+    return [(m.group(1), int(m.group(2)) if m.group(2) else None, m.group(3)) for m in _STATE.finditer(text)]
+
+
+def _field(state, name):
+    m = re.search(r"^/\\ %s = (.*?)(?=^/\\ |\Z)" % name, state, re.S | re.M)
+    return m.group(1).strip() if m else None
+
+
+def schedule_tokens(trace):
+    """Project a ParallelDesign behaviour onto decisions of the L1 driver."""
+    toks = []
+    for act, par, st in trace:
+        if act in ("CallStart", "CallStart2", "D1", "DLLocked", "RPop"):
+            toks.append(("L",))
+        elif act == "CbRegister":
+            Bs = _field(st, "B") or ""
+            los = [int(x) for x in re.findall(r"lo \|-> (\d+)", Bs)]
+            cs = [int(x) for x in re.findall(r"\bc \|-> (\d+)", Bs)]
+            toks.append(("C", cs[par - 1] - 1, los[par - 1]))
+        elif act == "ConsumerNext":
+            toks.append(("N",))
+        elif act == "ConsumerClose":
+            toks.append(("X",))
+    return toks
+
+
+def _guided_one(args):
+    cfg, toklists = args
+    sys.path.insert(0, VERIF)
+    from harness import pl1
+    import warnings
+    out = []
+    for toks in toklists:
+        holder = {}
+
+        class Guide:
+            def __init__(g, toks): g.toks = list(toks); g.pos = 0
+            def _skip(g):
+                while g.pos < len(g.toks) and g.toks[g.pos][0] in ("N", "X", "_"):
+                    g.pos += 1
+            def observe(g, kind):
+                # a scheduling point without alternatives
+                g._skip()
+                if kind == "lock" and g.pos < len(g.toks) and g.toks[g.pos][0] == "L":
+                    g.pos += 1
+                elif kind == "poll" and g.pos < len(g.toks) and g.toks[g.pos][0] == "C":
+                    g.pos += 1
+            def __call__(g, kind, n, info):
+                R = holder["r"]
+                if kind in ("lock", "poll"):
+                    ready = R.be.completable()
+                    g._skip()
+                    if g.pos < len(g.toks) and g.toks[g.pos][0] == "C":
+                        _, cc, lo = g.toks[g.pos]
+                        for j, k in enumerate(ready):
+                            it = R.be.pending[k]
+                            if it[3] == cc and it[4] == lo:
+                                g.pos += 1
+                                return j + (1 if kind == "lock" else 0)
+                        if kind == "poll":
+                            g.pos += 1          # not pending here (drift): take the first one
+                        return 0
+                    if kind == "lock" and g.pos < len(g.toks):
+                        g.pos += 1
+                    return 0
+                if kind == "cons":
+                    for i in range(g.pos, len(g.toks)):
+                        if g.toks[i][0] in ("N", "X"):
+                            t = g.toks[i][0]; g.toks[i] = ("_",)
+                            return 1 if t == "X" else 0
+                    return 0
+                return 0
+        chooser = Guide(toks)
+        with warnings.catch_warnings():
+            warnings.simplefilter("ignore")
+            r = pl1.Run(cfg, chooser); holder["r"] = r
+            r.execute()
+        out.append((r.events, [c for _, c, _ in r.choices], r.notes))
+    return cfg, out
+
+
+def model_guided(c, scenarios, num=40, depth=200, seed=0):
+    """Design spec -> code: TLC -simulate behaviours of ParallelDesign are projected onto L1 decisions
+    (completion order, placement relative to the caller's critical sections, consumer decisions) and replayed."""
+    import glob, shutil
+    jobs = []
+    for k, cfg in enumerate(scenarios):
+        cpath = os.path.join(VERIF, "out", "cfg", "PDS_%s_%d.cfg" % (c.pid, k))
+        consts = model_constants(cfg)
+        tlc.write_cfg(cpath, constants=consts, init="Init", next="Next")
+        d = os.path.join(VERIF, "out", "sim", "%s_%d" % (c.pid, k))
+        shutil.rmtree(d, ignore_errors=True); os.makedirs(d)
+        r = tlc.run("ParallelDesign", cpath, simulate="file=%s/tr,num=%d" % (d, num), depth=depth, seed=seed + 1 + k, workers=1)
+        c.add_tlc("simulate[%d]" % k, r)
+        toklists = []
+        for f in sorted(glob.glob(d + "/tr_*")):
+            toklists.append(schedule_tokens(parse_sim_trace(open(f).read())))
+        shutil.rmtree(d, ignore_errors=True)
+        cfg2 = dict(cfg)
+        if cfg2["mode"] != "list":
+            cfg2["calls"] = [dict(cc, cons="close") for cc in cfg2["calls"]]
+        jobs.append((cfg2, toklists))
+    traces = []; meta = []
+    with ProcessPoolExecutor(max_workers=min(8, max(1, len(jobs)))) as ex:
+        for cfg, out in ex.map(_guided_one, jobs):
+            for events, sched, notes in out:
+                traces.append(events); meta.append({"cfg": cfg, "sched": sched, "notes": notes, "driver": "L1-model-guided"})
+    c.extra["model_guided_replays"] = len(traces)
+    return traces, meta
